@@ -36,7 +36,7 @@ import (
 func TestMain(m *testing.M) { hx.Main(m) }
 
 type c20Spec struct {
-	Kind  string `json:"kind"`            // recv | lock | send | dur | reject
+	Kind  string `json:"kind"`            // recv | lock | send | dur | reject | ival
 	Proto string `json:"proto,omitempty"` // macat's protocol option
 	Tr    string `json:"tr,omitempty"`    // tcp | ipc
 	Bind  bool   `json:"bind,omitempty"`  // macat binds and the harness dials (else macat connects)
@@ -55,6 +55,8 @@ type c20Spec struct {
 	Var   string `json:"var,omitempty"`   // dur: which option; reject: which combination
 	Val   string `json:"val,omitempty"`   // dur: the duration text
 	ValNs int64  `json:"val_ns,omitempty"`
+	Ans   []bool `json:"ans,omitempty"` // ival: which of macat's transmissions the harness peer answers
+	RT    string `json:"rt,omitempty"`  // ival: --recv-timeout text ("" = none given)
 }
 
 var lenBoundary = []int{0, 1, 2, 254, 255, 256, 257, 65534, 65535, 65536, 65537}
@@ -192,6 +194,11 @@ func TestC20(t *testing.T) {
 		}
 		add(sp)
 	}
+	// a real send interval with a count, against a peer that leaves transmissions unanswered (appended last:
+	// the cases above keep their indices)
+	for i := 0; i < r.Pick(25, 1500); i++ {
+		add(ivalSpec(rnd, i, off, r.Thorough(), lens))
+	}
 	r.Run(cases, func(c *mon.Case) {
 		defer func() {
 			if x := recover(); x != nil {
@@ -216,6 +223,8 @@ func TestC20(t *testing.T) {
 			runDur(c, sp)
 		case "reject":
 			runReject(c, sp)
+		case "ival":
+			runIval(c, sp)
 		}
 	})
 }
